@@ -58,7 +58,9 @@ Hops(b) == {[num |-> b.blocks[i].num, limit |-> b.blocks[i].limit, count |-> b.b
 OutsOf(base) == {i \in DOMAIN outs : outs[i].b.base = base}
 ReportsOf(base) == {i \in DOMAIN reports : reports[i].subj = base}
 ConsumedOf(base) == {i \in DOMAIN consumed : consumed[i].base = base}
-IsReport(b) == Len(b.report) > 0
+\* a status report made by this node (a status report of another node that is merely forwarded here is an
+\* ordinary bundle in transit: C11 applies to it, not C19)
+IsReport(b) == Len(b.report) > 0 /\ b.src = scen.node
 Requested(b) == {a \in Actions : Has(b, ReqFlag(a))}
 \* what has actually happened to the bundle with identity id so far
 Occurred(id) ==
@@ -200,8 +202,12 @@ FinalClauses ==
           (h.act = "forward" /\ canSend /\ ~h.hoplimit) => (whole # {} \/ fr # {})),
       C({"C10"}, "NothingTransmittedUnlessRoutedForward",
           (h.act # "forward" /\ sole) => OutsOf(b.base) \subseteq {i \in DOMAIN outs : outs[i].b.id \in DOMAIN sent}),
-      C({"C10", "C08", "C12"}, "DeliverRoutedBundleReachesItsApplication",
-          deliverable => Cardinality({i \in ConsumedOf(b.base) : consumed[i].app = "probe"}) = 1),
+      \* known finding: an integrity block that is itself encrypted (a target of a confidentiality block, as
+      \* RFC 9172 3.9 requires when both cover one block) is never decoded after decryption, so the bundle is
+      \* deleted although every operation verifies
+      CK({"C10", "C08", "C12"}, "DeliverRoutedBundleReachesItsApplication",
+          deliverable => Cardinality({i \in ConsumedOf(b.base) : consumed[i].app = "probe"}) = 1,
+          "encrypted_bib_never_delivered", h.encbib /\ h.sec = "good" /\ ConsumedOf(b.base) = {}),
       C({"C10", "C12"}, "NotDeliveredOtherwise",
           ((h.act # "deliver" \/ h.secbad) /\ sole) => ConsumedOf(b.base) = {}),
       C({"C05"}, "FragmentsTileTheOriginalPayload",
@@ -306,7 +312,7 @@ Upd(ev) ==
         /\ cur' = [kind |-> kind, id |-> b.id, seen0 |-> nSeen, idle0 |-> ev.idle0, acts |-> 0]
         /\ hist' = IF kind = "new"
                    THEN Ext(hist, b.id, [b |-> b, act |-> act, mtu |-> TxMtu(ev.tx), secbad |-> ev.sec = "bad",
-                                         sec |-> ev.sec, plain |-> ev.plain, nsec |-> ev.nsec, rptroute |-> ev.rptroute,
+                                         sec |-> ev.sec, plain |-> ev.plain, nsec |-> ev.nsec, rptroute |-> ev.rptroute, encbib |-> ev.encbib,
                                          hoplimit |-> FALSE])
                    ELSE hist
         /\ order' = IF kind = "new" THEN Append(order, b.id) ELSE order
